@@ -316,18 +316,25 @@ pub fn grid(tier: Tier) -> Vec<Arc<dyn Scenario>> {
 }
 
 pub fn all_scenarios(tier: Tier) -> Vec<Arc<dyn Scenario>> {
-    grid(tier)
+    let mut v = grid(tier);
+    v.extend(super::c11t::grid(tier));
+    v.extend(super::c11t::core(tier));
+    v
 }
 
 pub fn run(tier: Tier, seed: u64) -> i32 {
     let mut rep = Report::new("C11", tier, seed);
     let known = known_sigs("C11");
     let q = tier == Tier::Quick;
-    let p = Params { max_dev: if q { 2 } else { 3 }, seeds: vec![seed, seed + 1], time_limit: Duration::from_secs(if q { 40 } else { 900 }), ..Default::default() };
+    let p = Params { max_dev: if q { 2 } else { 3 }, seeds: vec![seed, seed + 1], time_limit: Duration::from_secs(if q { 25 } else { 900 }), ..Default::default() };
     rep.add("ports: close / receiver drop / sender drop / cancelled close at every position of a 4-message stream (one chunked)", explore("C11", grid(tier), p, &known));
-    rep.rule = "a case = (event kind, position within the stream counted in receive events or messages, cfg pair, schedule deviations); distinct = distinct (sends completed, error classification, receiver log, ending); non-trivial = the event happened after at least one message was sent".into();
+    let p0 = Params { max_dev: 0, seeds: vec![seed], time_limit: Duration::from_secs(if q { 15 } else { 300 }), ..Default::default() };
+    rep.add("typed channels (base, mpsc with remote sender / remote receiver / local+remote / two remote senders, lr either half remote, oneshot, bin): receiver close / receiver drop / sender drop / connection cut after 0..4 values, settled and racing", explore("C11", super::c11t::grid(tier), p0, &known));
+    let p1 = Params { max_dev: if q { 1 } else { 2 }, seeds: vec![seed], time_limit: Duration::from_secs(if q { 15 } else { 900 }), ..Default::default() };
+    rep.add("typed channels: delivery schedules of racing close / drop", explore("C11", super::c11t::core(tier), p1, &known));
+    rep.rule = "a case = (channel kind and which half is remote, event kind, position within the stream, settled or racing, cfg pair, schedule deviations); distinct = distinct (per-sender send results and Sending-handle results, error classification, receiver log, ending); non-trivial = the event happened".into();
     rep.assumptions = vec![
-        "this check covers chmux ports; typed channels built on them are covered by C04/C05 scenarios".into(),
+        "typed channels: a Sending handle that resolved Ok (or, for channels without handles, a send that returned Ok) counts as a completed transmission".into(),
         "select! fairness fixed per seed".into(),
     ];
     rep.finish()
